@@ -81,10 +81,20 @@ def gen_palette():
                     "whileindex<self.0.len(){letdistance=crate::distance(color,self.0[index]);ifdistance<best_distance{best_index=index;best_distance=distance;}index+=1;}")
     want_xt = norm("letmutbest_index=16;letmutbest_distance=distance(color,XTERM_COLORS[best_index]);letmutindex=best_index+1;"
                    "whileindex<XTERM_COLORS.len(){letdistance=distance(color,XTERM_COLORS[index]);ifdistance<best_distance{best_index=index;best_distance=distance;}index+=1;}best_index")
-    if want_pal not in norm(pal):
-        raise GenError("palette.rs: the scan loop of find_match no longer has the shape the model transcribes")
-    if want_xt not in norm(lib):
-        raise GenError("lib.rs: the scan loop of find_xterm_match no longer has the shape the model transcribes")
+    # A text that differs is not an alarm by itself (a maintainer may extract the loop into a helper): the two
+    # functions are also TRANSLATED (tools/gen_fn_lossy.py -> Generated/LossyFn.v) and proved equal to the hand
+    # model's scans (Proofs/LossyGen.v, c10_translated_find_match_is_model / .._find_xterm_match_is_model), so the
+    # text pin falls back on "the function translator still translates them"; what they mean is then the business
+    # of those proofs (C10 names both generators in gen_deps).
+    if want_pal not in norm(pal) or want_xt not in norm(lib):
+        which = "palette.rs: the scan loop of find_match" if want_pal not in norm(pal) else "lib.rs: the scan loop of find_xterm_match"
+        fn_gen = GENERATORS.get("LossyFn")
+        try:
+            if fn_gen is None:
+                raise GenError("no function translator")
+            fn_gen()
+        except GenError as e:
+            raise GenError("%s no longer has the shape the model transcribes (and the function translator does not take over: %s)" % (which, e))
     m = re.search(r"const XTERM_COLORS\s*:\s*\[anstyle::RgbColor;\s*256\]\s*=\s*\[(.*?)\];", lib, re.S)
     if not m:
         raise GenError("XTERM_COLORS not found")
